@@ -1,5 +1,6 @@
 import Got.Model.Search
 import Got.Lemmas.Search
+import Got.Lemmas.SearchAst
 /-
 C14 — sortx.Search returns the first match or the complement of the insertion point.
 
@@ -10,7 +11,7 @@ Property theorems only (helper lemmas: Got/Lemmas/Search.lean). `search` is the 
 on the prefix `[0,b)` (so `b` is the insertion point), and an element equal to the target is never in the
 less-prefix and everything between the insertion point and it is equal too.
 -/
-open Got.Model.Search Got.Lemmas.Search
+open Got.Model.Search Got.Lemmas.Search Got.Lemmas.SearchAst Got.Model.MiniGo
 
 def C14_Consistent (n : Int) (less equal : Int → Bool) (b : Int) : Prop :=
   0 ≤ b ∧ b ≤ n ∧
@@ -264,3 +265,54 @@ example : (search 6 (fun k => decide (([1, 3, 3, 3, 7, 9] : List Int).getD k.toN
 example : (search 6 (fun k => decide (([1, 3, 3, 3, 7, 9] : List Int).getD k.toNat 0 < 8))
     (fun k => decide (([1, 3, 3, 3, 7, 9] : List Int).getD k.toNat 0 = 8))).map (·.1) = some (-6) := by
   simp +decide [search, loop, compl]
+
+/-! ### the translated source
+
+`Got.Generated.AstSortx.search` is the MiniGo term that tools/srcfacts regenerates from /repo/sortx/search.go on every
+run (go/ast + go/types → Got/Model/MiniGo.lean); the three theorems below are therefore re-checked against what the
+code says now.  `fnsOf less equal` supplies the two predicate parameters, `callOf` renders a model probe as a call. -/
+
+/-- The translator accepted the function: every construct of the current `sortx.Search` is inside the MiniGo
+    fragment (otherwise the generated body is empty and this note names the construct). -/
+theorem C14_translation_in_fragment : Got.Generated.AstSortx.searchNote = "ok" := by decide
+
+/-- **Translator tie.** For every 64-bit `count` and all predicates, interpreting the translated source of
+    `sortx.Search` (64-bit wrap-around arithmetic, unsigned shift, short-circuit `||`) yields exactly the result and
+    exactly the sequence of predicate calls of the model `search` that all other C14 theorems are about — with any
+    fuel ≥ count + 12 (the interpreter's fuel only bounds the number of statements executed). -/
+theorem C14_translated_source_refines_model (count : Int)
+    (hc : -9223372036854775808 ≤ count ∧ count < 9223372036854775808) (less equal : Int → Bool)
+    (r : Int) (log : List Probe) (hs : search count less equal = some (r, log))
+    (fuel : Nat) (hf : count.toNat + 12 ≤ fuel) :
+    Got.Generated.AstSortx.search.run (fnsOf less equal) fuel [count] = some (.ret r (log.map callOf)) :=
+  search_ast_refines count hc less equal r log hs fuel hf
+
+/-- Hence the property for the translated source itself: on an input sorted consistently with the predicates
+    (insertion point `b`), the code as translated returns `b` if the element there equals the target and `^b`
+    otherwise, and calls the predicates only at valid indices. -/
+theorem C14_translated_source_result (n : Int) (hn : 0 < n) (h64 : n < 9223372036854775808)
+    (less equal : Int → Bool) (b : Int) (hc : C14_Consistent n less equal b) :
+    ∃ r calls, (∀ fuel, n.toNat + 12 ≤ fuel →
+        Got.Generated.AstSortx.search.run (fnsOf less equal) fuel [n] = some (.ret r calls)) ∧
+      (b < n ∧ equal b = true → r = b) ∧ (¬ (b < n ∧ equal b = true) → r = -b - 1) ∧
+      (∀ c ∈ calls, 0 ≤ c.2 ∧ c.2 < n) := by
+  have ht := C14_terminates n less equal
+  cases hs : search n less equal with
+  | none => simp [hs] at ht
+  | some p =>
+    obtain ⟨r, log⟩ := p
+    refine ⟨r, log.map callOf, ?_, ?_, ?_, ?_⟩
+    · intro fuel hf
+      exact search_ast_refines n ⟨by omega, h64⟩ less equal r log hs fuel hf
+    · exact (C14_result n less equal b hn hc r log hs).1
+    · exact (C14_result n less equal b hn hc r log hs).2
+    · intro c hcm
+      obtain ⟨p, hp, rfl⟩ := List.mem_map.mp hcm
+      have := C14_probes_in_range n less equal r log hs p hp
+      cases p <;> simpa [callOf, idx] using this
+
+/-- non-vacuity / sanity: the interpreter run on the generated term, on a concrete sorted list -/
+example : (Got.Generated.AstSortx.search.run
+    (fnsOf (fun k => decide (([1, 3, 3, 3, 7, 9] : List Int).getD k.toNat 0 < 3))
+           (fun k => decide (([1, 3, 3, 3, 7, 9] : List Int).getD k.toNat 0 = 3))) 40 [6]) =
+    some (.ret 1 [("f0", 2), ("f0", 0), ("f0", 1), ("f1", 1)]) := by decide
